@@ -24,14 +24,14 @@ type childViolation struct {
 }
 
 type partial struct {
-	Evaluations  int64                 `json:"evaluations"`
-	Distinct     []string              `json:"distinct"`
-	Samples      []any                 `json:"samples"`
-	Obs          map[string]int64      `json:"obs"`
-	Sets         map[string][]string   `json:"sets"`
-	Inconclusive map[string]int64      `json:"inconclusive"`
-	Violations   []childViolation      `json:"violations"`
-	MaxObs       map[string]bool       `json:"max_obs"`
+	Evaluations  int64               `json:"evaluations"`
+	Distinct     []string            `json:"distinct"`
+	Samples      []any               `json:"samples"`
+	Obs          map[string]int64    `json:"obs"`
+	Sets         map[string][]string `json:"sets"`
+	Inconclusive map[string]int64    `json:"inconclusive"`
+	Violations   []childViolation    `json:"violations"`
+	MaxObs       map[string]bool     `json:"max_obs"`
 }
 
 func (r *Run) initChild() {
